@@ -39,6 +39,9 @@ PROPS = {
             'renderers vs reference reader and re-parse, bounded'),
     'C08': ('contracts.c08', 'exploration',
             'parser vs reference reader, exhaustive over class strings'),
+    'C14': ('contracts.c14', 'proof',
+            'option actions step contracts, registry, get_mutators, pass '
+            'construction, theory detection'),
 }
 
 
